@@ -161,15 +161,17 @@ Print Assumptions regexp_reread.
 
 (* C06 token sequences, PARTIAL: proved for the classes punctuators / operators (all 57 spellings),
    identifiers + keywords + private identifiers (ASCII, Unicode letters, \u escapes, ZWNJ/ZWJ),
-   whitespace (incl. non-ASCII spaces) and line terminators (LF, CR, CRLF, U+2028, U+2029).
+   whitespace (incl. non-ASCII spaces), line terminators (LF, CR, CRLF, U+2028, U+2029), string literals
+   (escapes, line continuations), multi-line comments and template literals without substitution.
    seq_ok ts: every (type, text) of ts is a token of one of these classes (it lexes on its own to
-   exactly that token: relexes), contains no truncated multi-byte sequence, and is followed — by the
-   next token's first byte, or by the end of input — by a byte that cannot extend it (stop_for: the
-   "separated wherever two adjacent tokens would otherwise merge" condition, in a sufficient form).
-   Then Next returns exactly these types and texts, in order, and ends at the end of the input.
-   MISSING classes (covered by correspondence and the Go oracle only): numeric literals, strings,
-   templates with nesting, comments, regular expressions; and followers that are safe but not in
-   stop_for (e.g. '+' directly followed by '!'). *)
+   exactly that token: relexes; a comment text starts with "/*"), contains no truncated multi-byte
+   sequence, and is followed — by the next token's first byte, or by the end of input — by a byte that
+   cannot extend it (stop_for: "separated wherever two adjacent tokens would otherwise merge", in a
+   sufficient form; closed tokens accept any follower).  Then Next returns exactly these types and
+   texts, in order, and ends at the end of the input.
+   MISSING (covered by correspondence and the Go oracle only): numeric literals, templates with
+   substitutions (nesting), single-line and HTML-like comments, regular expressions; followers that
+   are safe but not in stop_for (e.g. '+' directly followed by '!'). *)
 Theorem jslex_token_sequences_partial :
   forall (ids idc zs : Z -> bool) (ts : list tokspec), seq_ok ids idc zs ts ->
     exists s', next_n ids idc zs (length ts) (js_init (texts ts)) =
